@@ -113,17 +113,21 @@ fn recover<M: Model<ColorFormat = Rgb565>>(mut d: Dsp<M>, wp: *mut World, cfg: &
         (*wp).fail_at = NEVER;
         (*wp).failed = false;
     }
-    if failed_op == 4 {
-        // a failed set_orientation leaves the controller's address mode undefined: the
-        // obligation is that a later successful set_orientation makes drawing correct again
+    if failed_op == 4 && kani::any() {
+        // a failed set_orientation followed by a successful one: drawing is correct again
         let o = any_orientation();
         assert!(d.set_orientation(o).is_ok(), "[C12] set_orientation works again after the fault cleared");
         cfg.o = o;
         assert!(unsafe { d.dcs() }.c.madctl & 0xE0 == expected_madctl(mipidsi::options::ColorOrder::Rgb, o, Default::default()) & 0xE0, "[C12] retried set_orientation reaches the controller");
+    } else if failed_op == 4 {
+        // no retry: at this level a failed call did not reach the controller, so the display
+        // must still report, and draw for, the orientation the controller really has
+        cfg.o = sh.o;
+        assert!(unsafe { d.dcs() }.c.madctl & 0xE0 == expected_madctl(mipidsi::options::ColorOrder::Rgb, sh.o, Default::default()) & 0xE0, "[C12] controller keeps the old address mode when set_orientation failed before reaching it");
     } else {
         cfg.o = sh.o;
     }
-    assert!(d.orientation() == cfg.o, "[C12][C10] orientation() consistent after recovery");
+    assert!(d.orientation() == cfg.o, "[C12][C10] orientation() consistent with the controller after a failed call");
     {
         let c = &mut unsafe { d.dcs() }.c;
         c.arm();
